@@ -369,3 +369,79 @@ theorem div_neg_right (f : Fmt) (h : WF f) (a b : Nat) : FP.div f a (FP.neg f b)
            cases s <;> cases t <;> rfl)
 
 end FAVerif.SoftRound
+
+namespace FAVerif.SoftRound
+open FAVerif.FP
+
+/-- (−a) + (−a) = −(a + a) for every pattern (doubling never cancels). -/
+theorem add_neg_neg_self (f : Fmt) (h : WF f) (a : Nat) :
+    FP.add f (FP.neg f a) (FP.neg f a) = negN f (FP.add f a a) := by
+  unfold FP.add
+  rw [decode_neg_all f h a]
+  cases hd : decode f a with
+  | nan =>
+    simp only
+    unfold negN; rw [isNaN_nanBits f h]; rfl
+  | inf s =>
+    simp only [if_true]
+    unfold negN
+    rw [isNaN_infBitsS f h s, neg_infBitsS f h s]; rfl
+  | fin s m e =>
+    simp only [min_self, sub_self, Int.toNat_zero, pow_zero, mul_one]
+    have hM : sInt (!s) m + sInt (!s) m = -(sInt s m + sInt s m) := by
+      cases s <;> simp [sInt] <;> ring
+    rw [hM]
+    by_cases hz : sInt s m + sInt s m = 0
+    · simp only [hz, neg_zero, if_true, Bool.and_self]
+      unfold negN
+      rw [isNaN_zeroBits f h s, neg_zeroBits f h s]; rfl
+    · have hz' : ¬ (-(sInt s m + sInt s m) = 0) := by simpa using hz
+      simp only [hz, hz', if_false, Int.natAbs_neg]
+      obtain ⟨e1, e2⟩ := roundFin_neg f h (decide (sInt s m + sInt s m < 0)) (sInt s m + sInt s m).natAbs e
+      unfold negN
+      rw [e2]
+      simp only [Bool.false_eq_true, if_false]
+      rw [e1]
+      congr 1
+      rw [← decide_not]
+      exact decide_eq_decide.mpr (by omega)
+
+theorem eq_comm' (f : Fmt) (a b : Nat) : FP.eq f a b = FP.eq f b a := by
+  unfold FP.eq
+  rw [Bool.and_comm (!isNaNBits f a) (!isNaNBits f b)]
+  congr 1
+  exact decide_eq_decide.mpr eq_comm
+
+theorem magBits_neg (f : Fmt) (h : WF f) (a : Nat) : magBits f (FP.neg f a) = magBits f a := by
+  have := abs_neg_eq f h a
+  simpa [FP.abs, magBits] using this
+
+lemma isNaN_of_mag0 (f : Fmt) (h : WF f) {z : Nat} (hz : magBits f z = 0) : isNaNBits f z = false := by
+  have hzabs : FP.abs f z = 0 := by simpa [FP.abs, magBits] using hz
+  have := isNaN_abs f h z
+  rw [hzabs] at this
+  have n0 : isNaNBits f 0 = false := by
+    have := isNaN_zeroBits f h false
+    simpa [Fmt.zeroBits] using this
+  rw [n0] at this; exact this.symm
+
+lemma ord_of_mag0 (f : Fmt) {z : Nat} (hz : magBits f z = 0) : ord f z = 0 := by
+  unfold ord; rw [hz]; split <;> simp
+
+/-- comparing −a with ±0 for equality is comparing a with ±0 -/
+theorem eq_neg_zero (f : Fmt) (h : WF f) (a z : Nat) (hz : magBits f z = 0) : FP.eq f (FP.neg f a) z = FP.eq f a z := by
+  unfold FP.eq
+  rw [isNaN_neg f h a, ord_neg f h a, ord_of_mag0 f hz]
+  congr 1
+  exact decide_eq_decide.mpr (by omega)
+
+/-- a + (−b) ≈ a − b (equal, or both NaN) -/
+theorem add_neg_eqv_sub (f : Fmt) (h : WF f) (a b : Nat) : eqvN f (FP.add f a (FP.neg f b)) (FP.sub f a b) := by
+  unfold FP.sub
+  by_cases hn : isNaNBits f b = true
+  · simp only [hn, if_true]
+    have hn' : isNaNBits f (FP.neg f b) = true := by rw [isNaN_neg f h b]; exact hn
+    rw [add_nan_r f a _ hn']; exact eqvN_refl f _
+  · simp only [hn, Bool.false_eq_true, if_false]; exact eqvN_refl f _
+
+end FAVerif.SoftRound
